@@ -10,6 +10,36 @@ from experiment.model.frontends.flowir import FlowIR, Manifest
 import experiment.model.graph as graph
 
 import experiment.model.errors as _errors
+import posixpath as _posixpath
+
+
+def _py_normpath(path):
+    """CPython's pure-Python posixpath.normpath (the fallback Lib/posixpath.py uses when posix._path_normpath is missing).
+    The C implementation rejects CrossHair's symbolic strings ("proxy intolerance"), which made every path through
+    Manifest.validate unsupported; sweep() checks this stand-in against the C function on every swept string."""
+    sep, empty, dot, dotdot = '/', '', '.', '..'
+    if path == empty:
+        return dot
+    initial_slashes = path.startswith(sep)
+    if initial_slashes and path.startswith(sep * 2) and not path.startswith(sep * 3):
+        initial_slashes = 2
+    new_comps = []
+    for comp in path.split(sep):
+        if comp in (empty, dot):
+            continue
+        if comp != dotdot or (not initial_slashes and not new_comps) or (new_comps and new_comps[-1] == dotdot):
+            new_comps.append(comp)
+        elif new_comps:
+            new_comps.pop()
+    path = sep.join(new_comps)
+    if initial_slashes:
+        path = sep * initial_slashes + path
+    return path or dot
+
+
+_C_NORMPATH = getattr(_posixpath.normpath, '_verif_original', _posixpath.normpath)
+_py_normpath._verif_original = _C_NORMPATH
+_posixpath.normpath = _py_normpath
 
 # a manifest that is rejected by validation (absolute key, key escaping the instance) never reaches classification
 ALLOWED_EXCEPTIONS = (_errors.FlowIRManifestException,)
@@ -157,6 +187,23 @@ def _c09_manifest_top_level_pre(k):
     return 1 <= len(k) <= 4 and _printable(k) and not k.startswith('/') and ':' not in k
 
 
+def _c09_manifest_nested_key(k: str) -> bool:
+    """
+    pre: len(k) == 5 and k[1] == '/' and k[3] == '/' and 48 <= ord(k[0]) <= 122 and 48 <= ord(k[2]) <= 122 and 48 <= ord(k[4]) <= 122 and ':' not in k
+    raises: _errors.FlowIRManifestException
+    post: _
+    """
+    # a key with three one-character (symbolic) segments: the top-level folder is the first one, and a reference through it is direct
+    m = Manifest({k: 'src:copy'})
+    top = m.top_level_folders
+    st, prod, fn, method = FlowIR.ParseDataReferenceFull(k[0] + '/x:ref', 0, special_folders=top)
+    return top == [k[0]] and st is None
+
+
+def _c09_manifest_nested_key_pre(k):
+    return len(k) == 5 and k[1] == '/' and k[3] == '/' and all('0' <= k[i] <= 'z' for i in (0, 2, 4)) and ':' not in k
+
+
 def _c09_manifest_folder_is_not_component(k: str) -> bool:
     """
     pre: 1 <= len(k) <= 3 and 33 <= ord(k[0]) <= 126 and 33 <= ord(k[-1]) <= 126 and (len(k) < 3 or 33 <= ord(k[1]) <= 126) and k[0] != '/' and ':' not in k and '%' not in k and '.' not in k
@@ -243,6 +290,10 @@ def _strings(maxlen, alpha=ALPHA):
 def sweep(mod):
     s3 = [(s,) for s in _strings(3)]
     s4 = [(s,) for s in _strings(4, ['a', 'b', '/', '.'])]
+    # the normpath stand-in is validated against the C implementation on every swept string (and longer mixes of / . ..)
+    for (x,) in s3 + s4 + [(y,) for y in _strings(7, ['a', '/', '.'])]:
+        if _py_normpath(x) != _C_NORMPATH(x):
+            raise AssertionError('normpath stand-in differs from posixpath.normpath on %r' % x)
     yield '_c09_print_then_parse_name', s3
     yield '_c09_print_then_parse_file', s3
     yield '_c09_parse_then_print', s3
@@ -251,6 +302,7 @@ def sweep(mod):
     yield '_c09_expand_idempotent', s3
     yield '_c09_manifest_top_level', s4
     yield '_c09_manifest_folder_is_not_component', s4
+    yield '_c09_manifest_nested_key', [('%s/%s/%s' % (a, b, c),) for a in 'ab0' for b in 'ab0' for c in 'ab0']
     yield '_c09_reserved_first_segment_is_direct', s3
     yield '_c09_known_component_is_component', s3
     yield '_c09_confirm_relative_roundtrip', s3
